@@ -16,6 +16,8 @@ REPO = os.environ.get("VERIF_REPO", "/repo")
 PY = os.environ.get("VERIF_PYTHON", "/venv/bin/python")
 NPROC = int(os.environ.get("VERIF_NPROC", str(min(16, os.cpu_count() or 4))))
 GUARD = "XTUML_OTEL2PUML_VERIF"
+BREAKDOWN_TAGS = {"E1", "E2", "E3", "multi-start", "multi-event-break", "S1", "S2-eq", "S2-neq",
+                  "F_core", "F_edge", "corpus", "starts-with-block"}
 
 
 def digest(obj: Any, n: int = 12) -> str:
@@ -249,6 +251,13 @@ class Check:
             "inconclusive": self.inconclusive[:20],
             "violation_symptoms": sorted({v["symptom"] for v in self.violations})[:20],
         }
+        if self.violations:
+            br: dict[str, int] = {}
+            for v in self.violations:
+                feat = [t for t in v["tags"] if t in BREAKDOWN_TAGS or t.startswith("corpus:")]
+                key = v["symptom"] + " | " + ",".join(feat)
+                br[key] = br.get(key, 0) + 1
+            coverage["violation_breakdown"] = dict(sorted(br.items(), key=lambda kv: -kv[1])[:40])
         if self.exhaustive:
             coverage["exhaustive"] = True
         coverage.update(self.extra)
